@@ -51,7 +51,8 @@ var meNames = []string{"default", "read", "write", ""}
 const noName = "\x00no-name"
 
 // (one endpoint name is the comma-join of two others: names are opaque strings)
-var epNames = []string{"e0:443", "e1:443", "e0:443,e1:443", "e3:443", "e4:443"}
+// and one differs from another in letter case only
+var epNames = []string{"e0:443", "e1:443", "e0:443,e1:443", "E0:443", "e4:443"}
 
 type MESpec struct {
 	Name int   `json:"name"`
@@ -103,6 +104,9 @@ type Plan struct {
 	Shared bool `json:"shared,omitempty"`
 	// Tick: the clock read by the library moves 1 ns with every reading
 	Tick bool `json:"tick,omitempty"`
+	// SlowDial: the n-th dial of the run takes SlowMs of simulated time
+	SlowDial int `json:"slow_dial,omitempty"`
+	SlowMs   int `json:"slow_ms,omitempty"`
 	// OwnerClose: before Close() the application closes some pool connections itself
 	OwnerClose bool `json:"owner_close,omitempty"`
 }
@@ -163,6 +167,9 @@ func Generate(r *rand.Rand, profile string, concurrent bool, avoid map[string]bo
 	}
 	p.Shared = !p.Alias && r.IntN(4) == 0
 	p.OwnerClose = r.IntN(5) == 0
+	if !concurrent && r.IntN(8) == 0 {
+		p.SlowDial, p.SlowMs = 1+r.IntN(8), []int{25000, 61000}[r.IntN(2)]
+	}
 	p.Tick = r.IntN(3) == 0
 	bad := profile == "gmebad"
 	p.Init = genOpts(r, bad && r.IntN(4) == 0, true)
@@ -449,6 +456,8 @@ type sim struct {
 	own                *grpcgcp.GCPMultiEndpointOptions // plan.Alias: the application's one options object
 	master, masterWant []string
 	holds              []*heldCall
+	dialTotal          int
+	slowHit            bool // the slow dial has started (updates concerned may be rejected or take long)
 	userOpts           []grpc.DialOption
 	twinCfg            *pb.ApiConfig
 	cfgBad             string // first pool dialled with a configuration that is not the instance's
@@ -490,6 +499,13 @@ func (s *sim) openPool(ep string) *fakePool {
 func (s *sim) dial(ctx context.Context, target string, dopts ...grpc.DialOption) (vsync.PoolConn, error) {
 	s.k.Yield("dial")
 	s.dialN++
+	s.dialTotal++
+	if s.plan.SlowDial > 0 && s.dialTotal == s.plan.SlowDial && !s.plan.Concurrent {
+		// a dial that takes half a minute or more (a blocking dial to an endpoint
+		// that is slow to come up) and ignores its context, then succeeds
+		s.slowHit = true
+		s.k.Sleep(time.Duration(s.plan.SlowMs) * time.Millisecond)
+	}
 	s.dialLog = kern.Push(s.dialLog, target)
 	if s.dialFail > 0 && s.dialN == s.dialFail {
 		s.nDialFail++
@@ -873,6 +889,7 @@ func (s *sim) run(src *simkit.Source, logOn bool) {
 		}
 	})
 	k.Quiesce()
+	s.waitSlow(c)
 	if !s.plan.Twin || s.plan.Concurrent {
 		s.reuseDialOpts()
 	}
@@ -887,7 +904,7 @@ func (s *sim) run(src *simkit.Source, logOn bool) {
 	switch {
 	case wantErr && err == nil:
 		s.vio("C16", "invalid-construction-accepted", s.kindOf(init), fmt.Sprintf("NewGCPMultiEndpoint accepted invalid options %+v", init))
-	case !wantErr && err != nil && !negDur(init):
+	case !wantErr && err != nil && !negDur(init) && !s.slowHit:
 		s.vio("C15", "valid-construction-rejected", "", fmt.Sprintf("NewGCPMultiEndpoint(%+v) = %v", init, err))
 	case err != nil:
 		if !wantErr {
@@ -1157,6 +1174,18 @@ func (s *sim) twinProbes(when string) {
 			return
 		}
 		s.res.Count("probe:twin_rpc_judged", 1)
+	}
+}
+
+// waitSlow: a call into the library that has not returned because a dial sleeps:
+// simulated time passes (up to two minutes) until it returns.
+//
+//go:norace
+func (s *sim) waitSlow(c *callRec) {
+	for i := 0; i < 24 && !c.done && s.slowHit && !s.stop; i++ {
+		s.k.Advance(5 * time.Second)
+		s.k.Quiesce()
+		s.kernelFailure()
 	}
 }
 
@@ -1485,6 +1514,9 @@ func (s *sim) exec(o Op) {
 		if !alone {
 			s.k.Quiesce()
 		}
+		slowBefore := s.slowHit
+		s.waitSlow(c)
+		slowNow := s.slowHit && (!slowBefore || !c.done)
 		if c.done {
 			s.masterCheck("UpdateMultiEndpoints")
 			s.scribbleOpts()
@@ -1507,7 +1539,7 @@ func (s *sim) exec(o Op) {
 			return
 		}
 		if !wantErr && err != nil {
-			if !negDur(sp) {
+			if !negDur(sp) && !slowNow && !(s.slowHit && !slowBefore) {
 				s.vio("C15", "valid-update-rejected", "", fmt.Sprintf("UpdateMultiEndpoints = %v", err))
 				return
 			}
@@ -1790,6 +1822,15 @@ func (s *sim) heal() {
 				s.vio("C16", "goroutine-leak", "twin-after-close", fmt.Sprintf("second instance: a goroutine it started is still alive after Close (%v at %s)", t.State(), t.Site))
 				return
 			}
+		}
+	}
+	if s.slowHit {
+		// a dial that outlived the call that started it has returned by now
+		s.k.Advance(70 * time.Second)
+		s.k.Quiesce()
+		s.kernelFailure()
+		if s.stop {
+			return
 		}
 	}
 	// Close releases everything - also when the application has meanwhile closed
